@@ -62,6 +62,9 @@ def name_refs_flow(ctx):
             for st in mu.trace_back(b, defs, l if l is not None else -1):
                 if st[2] != "term" and st[3].get("k") == "ref":
                     root = st[3]["pl"]["l"]
+            if root != 3 and l is not None:
+                # through a captured variable of a closure / a field of a helper struct
+                root = mu.ref_root(b, defs, l)
             if root != 3:
                 bad.append((b, "the compression table passed at `%s` is not the function's own name_refs parameter" % (t["sp"].get("sn") or "")))
     return n, bad
